@@ -319,7 +319,8 @@ class Persona(object):
         if b == 'schedule_1_additional_income':
             return self.s1_income
         if b == 'schedule_1_income_adjustments':
-            return self.s1_adjust or self.hsa_you or self.hsa_spouse
+            # an early-withdrawal penalty on a 1099-INT (box 2) is an adjustment to income (Schedule 1 line 18)
+            return self.s1_adjust or self.hsa_you or self.hsa_spouse or any(d.get('box_2', 0) > 0 for d in self.ints)
         if b == 'estimated_tax_payments':
             return self.estimated
         if b == 'other_federal_withholding':
@@ -451,7 +452,15 @@ class Persona(object):
             return 'described here'
         return None
 
+    S1_INCOME = ('alimony_received', 'unemployment_income', 'other_income_amount', 'state_local_income_tax')
+    S1_ADJUST = ('educator_expenses', 'alimony_paid', 'traditional_ira_deduction', 'other_adjustments_amount')
+
     def _f_1040_s1(self, b, inst, inp, r):
+        # coherent with the yes/no answers on Form 1040: no amounts for a part of Schedule 1 the persona says it does not need
+        if b in self.S1_INCOME + ('need_other_income', 'state_local_income_tax_adjust') and not self.s1_income:
+            return None
+        if b in self.S1_ADJUST + ('need_other_adjustments',) and not (self.s1_adjust or self.hsa_you or self.hsa_spouse or any(d.get('box_2', 0) > 0 for d in self.ints)):
+            return None
         if b in self.s1:
             return self.s1[b]
         if b == 'hsa_contribution_you':
@@ -533,7 +542,17 @@ class Persona(object):
             return round(r.uniform(0, 100), 2)
         return None
 
+    NC_ADDITIONS = ('interest_income_not_nc', 'deferred_gains_opportunity_fund', 'bonus_depreciation_deducted', 'section_179_expense_difference',
+                    's_corp_builtin_gains', 'federal_basis_exceeds_nc', 'net_operating_loss_deduction', 'tax_deducted_by_s_corp',
+                    '529_contributions_wrong_purpose', 'cancelled_residence_debt', 'employer_education_loan_payments', 'expenses_allocable_exempt',
+                    'discharged_student_debt', 'taxed_pass_through_entity_loss', 'business_meal_deduction')
+
     def _f_nc_d_400_ss(self, b, inst, inp, r):
+        # coherent with the D-400 yes/no answers: no additions / deductions unless the persona says it has some
+        if b in self.NC_ADDITIONS and not self.ncv['additions_to_agi']:
+            return None
+        if b not in self.NC_ADDITIONS and not self.ncv['deductions_from_agi']:
+            return None
         if isinstance(inp, I.FloatInput):
             return round(r.choice([0, 0, 0, r.uniform(1, 1500)]), 2)
         if b in ('bonus_depreciation', 'section_179_expense'):
